@@ -245,38 +245,88 @@ def rule_R19_3(ctx):
     return r
 
 
+def _forward_taint(f, seeds):
+    """Locals that may hold a value derived from the seed locals (forward
+    slice through assignments and call results, intra-procedural)."""
+    t = set(seeds)
+    changed = True
+    while changed:
+        changed = False
+        for bb, i, pl, rv, sp in f.assigns():
+            if pl[0] in t:
+                continue
+            if any(p[0] in t for p in mir.rvalue_places(rv)):
+                t.add(pl[0])
+                changed = True
+        for c in f.calls():
+            if c.dst is None or c.dst[0] in t:
+                continue
+            if any(mir.is_place_operand(a) and mir.op_place(a)[0] in t for a in c.args):
+                t.add(c.dst[0])
+                changed = True
+    return t
+
+
 def rule_R19_4(ctx):
     prog = ctx.prog
-    r = RuleResult("R19.4", "no pointer value is observed (addresses vary "
-                   "between runs); identity is only a boolean",
-                   "printing or comparing addresses numerically makes output "
-                   "depend on the allocator")
+    r = RuleResult("R19.4", "no address reaches anything observable (text, "
+                   "an integer value, an ordering); identity is only a boolean",
+                   "printing or ordering by addresses makes output depend on "
+                   "the allocator")
     n = 0
     for f in prog.full_fns(generated=False):
         if f.from_expansion:
             continue
+        seeds = []
         for bb, i, pl, rv, sp in f.assigns():
             # (debug builds insert pointer->usize transmutes for alignment
             # checks; only a source-level `ptr as usize` is an observation)
             if rv[0] == "cast" and "PointerExposeProvenance" in rv[1]:
-                n += 1
-                r.fail("%s | pointer-to-integer cast" % f.path,
-                       "%s converts a pointer to an integer" % f.path, where=mir.span_loc(sp))
+                seeds.append((pl[0], mir.span_loc(sp), "ptr as usize"))
         for c in f.calls():
             res = c.res or ""
             full = c.res_full or ""
+            if "fmt::rt::Argument" in full and "new_pointer" in full:
+                n += 1
+                r.fail("%s | formats an address ({:p})" % f.path,
+                       "%s prints a pointer" % f.path, where=c.loc)
             observes = (
                 (res.endswith("::as_ptr") and "Arc" in res)
-                or ("fmt::rt::Argument" in full and "new_pointer" in full)
                 or res.endswith("Arc::<T>::into_raw")
                 or res.startswith("std::ptr::addr")
                 or (res.endswith("::addr") and "ptr::" in res)
                 or res.endswith("::expose_provenance"))
-            if observes:
-                n += 1
-                r.fail("%s | observes address via %s" % (f.path, res.split("::")[-1]),
-                       "%s obtains a raw address (%s)" % (f.path, res), where=c.loc)
-    r.inst("pointer observation sites: %d" % n)
+            if observes and c.dst is not None:
+                seeds.append((c.dst[0], c.loc, res.split("::")[-1]))
+        if not seeds:
+            continue
+        n += len(seeds)
+        t = _forward_taint(f, [s_[0] for s_ in seeds])
+        sinks = []
+        for c in f.calls():
+            full = c.res_full or ""
+            res = c.res or ""
+            tainted_arg = any(mir.is_place_operand(a) and mir.op_place(a)[0] in t for a in c.args)
+            if not tainted_arg:
+                continue
+            if "fmt::rt::Argument" in full:
+                sinks.append(("formatted", c.loc))
+            elif res.endswith("new_int") or "PartialOrd" in (c.declared or "") or "::Ord::" in (c.declared or ""):
+                sinks.append(("ordered/integer use via %s" % res.split("::")[-1], c.loc))
+            elif "BTreeMap" in full or "BTreeSet" in full:
+                sinks.append(("ordered container key", c.loc))
+        for bb, i, pl, kd, aops, sp in f.aggregates("eval::value::Value", "Int"):
+            if any(mir.is_place_operand(o) and mir.op_place(o)[0] in t for o in aops):
+                sinks.append(("Seed integer", mir.span_loc(sp)))
+        r.inst("%s: %d address observation(s) (%s), observable sinks: %s"
+               % (f.path, len(seeds), sorted(set(s_[2] for s_ in seeds)), [k for k, _ in sinks]))
+        if sinks:
+            r.fail("%s | address reaches %s" % (f.path, sinks[0][0]),
+                   "%s derives a value from a container's address and it "
+                   "reaches %s" % (f.path, sinks[0][0]), where=sinks[0][1])
+        else:
+            r.ok()
+    r.inst("address observation sites: %d" % n)
     if n == 0:
         r.ok()
     return r
